@@ -92,6 +92,9 @@ def oracle_and_corr(ctx):
         plain = os.path.join(ctx.work, 'j%d.journal' % si)
         data = gzip.open(src, 'rb').read() if kind == 'gz' else open(src, 'rb').read()
         open(plain, 'wb').write(data)
+        # a modification time OLDER than every entry (a journal restored from backup / copied with a lagging clock): the window is applied to the
+        # entries' receive times, never to the file's mtime (seeded change C09-e dismissed a journal whose mtime lies before --dt-after)
+        os.utime(plain, (946684800, 946684800))
         ref = journalctl(plain)
         if not ref:
             failures.append({'signature': 'journal:journalctl-unavailable', 'detail': rel})
@@ -164,6 +167,7 @@ def oracle_and_corr(ctx):
                 path = plain + e2e.SUFFIX[ckind]
                 if not os.path.exists(path):
                     e2e.pack(data, ckind, path, inner_name=os.path.basename(plain))
+                    os.utime(path, (946684800, 946684800))
             args = ['--journal-output', 'export']
             if a is not None:
                 args += ['-a', fmt_us(a)]
